@@ -203,6 +203,7 @@ func (i *IPFIX) ipfixWorker(wQuit chan struct{}) {
 LOOP:
 	for {
 
+		vhook("Top", "ipfix", msg.body, nil)
 		ipfixBuffer.Put(msg.body[:opts.IPFIXUDPSize])
 		buf.Reset()
 
@@ -214,6 +215,7 @@ LOOP:
 				break LOOP
 			}
 		}
+		vhook("Deq", "ipfix", msg.body, nil)
 
 		if opts.Verbose {
 			logger.Printf("rcvd ipfix data from: %s, size: %d bytes",
@@ -241,6 +243,7 @@ LOOP:
 		}
 
 		atomic.AddUint64(&i.stats.DecodedCount, 1)
+		vhook("Dec", "ipfix", msg.body, nil)
 
 		if len(decodedMsg.DataSets) > 0 {
 			b, err = decodedMsg.JSONMarshal(buf)
@@ -248,6 +251,7 @@ LOOP:
 				logger.Println(err)
 				continue
 			}
+			vhook("Mar", "ipfix", msg.body, b)
 
 			select {
 			case ipfixMQCh <- append([]byte{}, b...):
